@@ -42,6 +42,26 @@ func ApplyLegacy(doc, patch string, neg bool, limit int64, indent string) Legacy
 			res.Out, res.Err = p.ApplyIndent([]byte(doc), indent)
 		}
 	})
+	if res.Panic == nil && res.DecodeErr == nil && core.Hash64(doc, patch)%2 == 0 {
+		// the same decoded Patch value a second time (a Patch is reusable): same bytes, same error
+		var o1, o2 []byte
+		var e1, e2 error
+		res.Panic = mon.Try(func() {
+			p, _ := jpl.DecodePatch([]byte(patch))
+			if indent == "" && len(doc)%2 == 0 {
+				o1, e1 = p.Apply([]byte(doc))
+				o2, e2 = p.Apply([]byte(doc))
+			} else {
+				o1, e1 = p.ApplyIndent([]byte(doc), indent)
+				o2, e2 = p.ApplyIndent([]byte(doc), indent)
+			}
+		})
+		if res.Panic == nil && (string(o1) != string(o2) || errText(e1) != errText(e2)) {
+			res.Panic = &mon.Panic{Deviation: true, Class: "second-application-of-the-same-Patch-differs", Site: "legacy Apply",
+				Value: fmt.Sprintf("first application returned (%s, %q), the second application of the same Patch value (%s, %q)", clip(string(o1), 300), errText(e1), clip(string(o2), 300), errText(e2)),
+				Entry: "legacy Apply", Stack: "(no stack: two applications were compared)"}
+		}
+	}
 	if res.Panic == nil {
 		res.Panic = retainResult("legacy Apply", res.Out)
 	}
